@@ -894,6 +894,13 @@ func (u *Unit) setupRefines(st *State, names map[string]*Val) {
 		rst.assume(g)
 	}
 	u.assumeRepInv(rst, names)
+	if u.recvName != "" {
+		if rv := names[u.recvName]; rv != nil && rv.S != "" && kindOf(rv.T) == kRef {
+			// a method reached through an interface value: the receiver stored in the interface is not a nil pointer
+			rst.assume(app("distinct", rv.S, "0"))
+			u.trusted["receivers of methods called through an interface are non-nil pointers"] = true
+		}
+	}
 	env := &SpecEnv{names: names, pkg: u.pkg, what: u.name + " requires"}
 	for _, rq := range u.ct.Requires {
 		g, q := u.evalSpecBool(rst, rq.E, env, false)
